@@ -287,6 +287,6 @@ pub fn run(r: &mut Runner) {
         groups.extend(crate::hist::unary_groups(&[Op::acosh, Op::atanh], &[[1.5, 1e-17], [0.5, -1e-18]], [0.25, 0.0]));
         crate::hist::explore(r, "histories: hyperbolic functions", &groups, 3, &hist_judge, 14u64 << 55);
         // cross-family histories: the same judged calls, preceded by every other public function on the same operands
-        crate::hist::explore_mixed(r, "cross-family histories: any public call, then hyperbolic functions", &groups[..groups.len().min(2)], 2, &hist_judge, (14u64 << 55) + (1u64 << 53));
+        crate::hist::explore_mixed(r, "cross-family histories: any public call, then hyperbolic functions", &groups, 2, &hist_judge, (14u64 << 55) + (1u64 << 53));
     }
 }
